@@ -324,13 +324,13 @@ def pyAtomEq (a b : Key) : Bool :=
   | .dinf n, b => b == .dinf n
   | .dbl v _, .dec w => v == roundDbl w                -- value1 != float(value2)
   | .dbl v _, .dbl w _ => v == w
-  | .dbl v _, .int w => v == (w : Rat)                 -- exact int/float comparison of Python
+  | .dbl v _, .int w => v == roundDbl (w : Rat)        -- value1 != as_double(value2): the integer is promoted
   | .dbl _ _, _ => false
   -- value2 is a float
   | _, .dnan => false
   | _, .dinf _ => false
   | .dec w, .dbl v _ => v == roundDbl w
-  | .int w, .dbl v _ => (w : Rat) == v
+  | .int w, .dbl v _ => roundDbl (w : Rat) == v
   | _, .dbl _ _ => false
   -- value1 != value2 (for dates the plain `==`: instants, a missing timezone read as UTC)
   | .date _ u _, .date _ u' _ => u == u'
